@@ -34,7 +34,8 @@ CHECKS = {
                  "package is under an effect contract or on a committed allow-list); the two get_files_to_analyze implementations (deductive: only selected "
                  "files with the codemod's extensions / only files carrying a finding of a requested rule); BOUNDED: nothing outside the target is "
                  "written through symlinked manifests or sources; the two file selections of a real context (find-and-fix: defaults when no "
-                 "pattern; SAST: the user's patterns without the default excludes)."),
+                 "pattern; SAST: the user's patterns without the default excludes); the real CLI over a tree whose files all contain the trigger (files "
+                 "changed == selected files, incl. dotted base names)."),
         "note": "fnmatch, Path.rglob/is_symlink trusted; the ghost file system maps paths, not inodes (symlink aliasing is covered by the bounded stand-in only); 'every fixable file is fixed' is out of reach.",
         "design_ref": "DESIGN.md section 4 C05",
     },
@@ -129,7 +130,8 @@ CHECKS = {
         "text": ("Deductive: compile_results returns exactly one result per executed codemod, in order, each built from that codemod's metadata and "
                  "keys only (lemma by induction for the length); changesets from the pipelines have a project-relative path, at least one change, "
                  "(libcst: a non-empty diff); a failed file never also has a changeset; Change validators; write_report status. BOUNDED stand-in (not counted "
-                 "as proved): update_finding_metadata returns the same changesets with only rule name/url filled in (the contract compile_results assumes)."),
+                 "as proved): update_finding_metadata returns the same changesets with only rule name/url filled in (the contract compile_results assumes); "
+                 "the report of a real multi-codemod run lists one result per executed codemod in execution order."),
         "note": "Trusted: pydantic serialisation; metadata properties of BaseCodemod.",
         "design_ref": "DESIGN.md section 4 C15",
     },
